@@ -42,8 +42,10 @@ HOST_FAMILIES = {
     "special": ["localhost", "127.0.0.1", "lemonde.fr"],
 }
 FAMILY_ORDER = ["fr", "couk", "idn", "ghio", "lang", "special"]
-PATHS = ["", "/", "/a", "/a/", "/a/b", "/a//b", "/a/b/", "/a/index.html", "/a/./b", "/A", "/%61", "/a/b.html", "/a/b/c"]
-QUERIES = ["", "x=1", "x=1&y=2", "y=2&x=1", "utm_source=z&x=1", "x=1&utm_source=z", "X=1", "hl=fr&x=1"]
+# a literal '|' inside a stem is legal as long as it is not followed by a stem
+# marker ('p:' etc.): the serialised format only splits before markers
+PATHS = ["", "/", "/a", "/a/", "/a/b", "/a//b", "/a/b/", "/a/index.html", "/a/./b", "/A", "/%61", "/a/b.html", "/a/b/c", "/a|b", "/a/Foo|Bar", "/a|b/c"]
+QUERIES = ["", "x=1", "x=1&y=2", "y=2&x=1", "utm_source=z&x=1", "x=1&utm_source=z", "X=1", "hl=fr&x=1", "k=a|b"]
 FRAGMENTS = ["", "#f", "#/route", "#!/route"]
 PORTS = ["", ":80", ":443", ":8080"]
 SCHEMES = ["http://", "https://", "", "HTTP://"]
@@ -128,6 +130,8 @@ def generate(seed, run, tier):
     enabled = [k for k in FAULT_KINDS if crng.random() < 0.6] if crng.random() < 0.5 else []
     fault_rate = crng.choice([0.05, 0.1, 0.15]) if enabled else 0.0
     config["fault_class"] = bool(enabled)
+    # observation schedule (swarm): see c10
+    config["sweep"] = weighted_choice(crng, [({"iter": True, "stride": 1}, 55), ({"iter": False, "stride": 1}, 15), ({"iter": False, "stride": 3}, 20), ({"iter": True, "stride": 2}, 10)])
     value_mode = crng.choice(["unique", "unique", "const", "mixed"])
     n_writers = crng.choice([1, 1, 2, 3])
     n_readers = crng.choice([0, 1, 2])
@@ -203,6 +207,9 @@ def generate(seed, run, tier):
             elif wrng.random() < 0.3:
                 events.append({"op": "iter_drain", "it": it, "c": it})
                 del live[it]
+            elif "iter_cancel" in enabled and frng.random() < 0.2:
+                events.append({"op": "iter_cancel", "it": it, "how": frng.choice(["close", "throw", "drop"]), "c": "F"})
+                del live[it]
             else:
                 events.append({"op": "iter_next", "it": it, "n": wrng.randint(1, 3), "c": it})
     for it in sorted(live):
@@ -258,6 +265,7 @@ class Run(object):
         }[cls]
         self.model = {}
         self.iters = {}
+        self.sweeps = 0
         self.universe = list(config["universe"])
         self.keys = {}
         self.groups = {}
@@ -291,11 +299,18 @@ class Run(object):
     def lru_arg(self, stems, how):
         return serialize(stems) if how == "str" else list(stems)
 
-    def sweep(self, op):
+    def sweep(self, op, force=False):
+        sw = self.cfg.get("sweep") or {}
+        stride = 1 if force else sw.get("stride", 1)
+        do_iter = force or sw.get("iter", True)
+        self.sweeps += 1
+        off = self.sweeps % stride
         results = {}
         n = 0
         for u in self.universe:
             n += 1
+            if n % stride != off:
+                continue
             key = self.keys[u]
             got = self.trie.match(u)
             results[u] = got
@@ -307,18 +322,20 @@ class Run(object):
                 got2 = self.trie.match_lru(self.lru_arg(key, how))
                 self.expect("match_lru", op, got2, expected, {"stems": list(key), "as": how})
         # same-key law: one URL-level string => one key
-        for group in self.group_list:
-            first = results[group[0]]
-            for u in group[1:]:
-                self.stats.checks += 1
-                if not same(results[u], first):
-                    self.fail("same_key", op, {u: r(results[u])}, {group[0]: r(first)}, {"string": self.url_fn(u, **self.kwargs)})
+        if stride == 1:
+            for group in self.group_list:
+                first = results[group[0]]
+                for u in group[1:]:
+                    self.stats.checks += 1
+                    if not same(results[u], first):
+                        self.fail("same_key", op, {u: r(results[u])}, {group[0]: r(first)}, {"string": self.url_fn(u, **self.kwargs)})
         self.expect("len", op, len(self.trie), len(self.model))
-        got = sorted(r(v) for v in self.trie)
-        exp = sorted(r(v) for v in self.model.values())
-        self.stats.checks += 1
-        if got != exp:
-            self.fail("iteration", op, got, exp)
+        if do_iter:
+            got = sorted(r(v) for v in self.trie)
+            exp = sorted(r(v) for v in self.model.values())
+            self.stats.checks += 1
+            if got != exp:
+                self.fail("iteration", op, got, exp)
         self.stats.state(repr(sorted((k, repr(v)) for k, v in self.model.items())) + self.cfg["cls"], nontrivial=bool(self.model))
 
     def mutation_begins(self):
@@ -380,6 +397,8 @@ class Run(object):
             if "p:" in stems[:-1]:
                 stats.probe("empty_path_stem_inside")
             stats.probe("set_lru_" + ev["as"])
+            if ev["as"] == "str" and any("|" in x for x in stems):
+                stats.probe("pipe_inside_serialised_stem")
             before = repr(sorted(self.model)) if stats.collect else ""
             self.trie.set_lru(self.lru_arg(stems, ev["as"]), value)
             self.model[key] = value
@@ -471,6 +490,8 @@ class Run(object):
                 return
             if ev["how"] == "close":
                 rec["gen"].close()
+            elif ev["how"] == "drop":
+                rec["gen"] = None
             else:
                 try:
                     rec["gen"].throw(SimCancel())
@@ -479,7 +500,7 @@ class Run(object):
             stats.fault("iter_cancel")
             stats.probe("iter_cancelled")
             stats.event("%s|iter_cancel|%s|%d" % (ev["it"], ev["how"], len(rec["got"])))
-            self.sweep("iter_cancel")
+            self.sweep("iter_cancel", force=True)
         else:
             raise HarnessError("unknown event %r" % (ev,))
 
@@ -488,7 +509,7 @@ def execute(case, stats, known):
     run = Run(case["config"], stats, known)
     for ev in case["events"]:
         run.step(ev)
-    run.sweep("end")
+    run.sweep("end", force=True)
 
 
 # -----------------------------------------------------------------------------
@@ -527,6 +548,10 @@ def shrink_event(config, ev):
 def shrink_config(case):
     cfg = case["config"]
     out = []
+    if cfg.get("sweep") not in (None, {"iter": True, "stride": 1}):
+        c = dict(cfg)
+        c["sweep"] = {"iter": True, "stride": 1}
+        out.append({"config": c, "events": case["events"]})
     used = set(ev.get("url") for ev in case["events"])
     # halve the universe, keeping URLs the events name
     uni = cfg["universe"]
@@ -567,6 +592,7 @@ PROBES = [
     "empty_path_stem_inside",
     "set_lru_str",
     "set_lru_list",
+    "pipe_inside_serialised_stem",
     "match_lru_str",
     "match_lru_list",
     "same_string_class_size_ge2_hit",
@@ -591,7 +617,7 @@ RULE = (
 )
 ASSUMPTIONS = [
     "the model's keys are computed with the repository's module-level stem functions (lru_stems etc.): a stem bug that is consistent between set and match is invisible here (it belongs to C07/C12/C13); the same-key law against the URL-level functions is the independent cross-check",
-    "no '|' in any URL or stem (the serialised LRU format cannot represent it)",
+    "a literal '|' occurs inside path and query stems, but never directly before a stem marker such as 'p:' and never at the end of a stem (the serialised LRU format cannot represent those)",
     "operations are atomic; an iterator overtaken by a mutation is not judged",
     "sampled histories: a clean batch is evidence, not proof",
 ]
